@@ -3,3 +3,5 @@ V("icc.shuffle", ["C18", "C01"], "crates/jxl-color/src/icc/decode.rs", ["shuffle
   "for every length: output length == input length and output byte j == input byte shuffle_src(w, n, j) "
   "(transposition of the w-row matrix whose last column lacks its bottom elements); no index out of bounds, "
   "no arithmetic overflow, both functions terminate")
+V("rd.mirror", ["C01"], "crates/jxl-render/src/util.rs", ["mirror"], "verus/render_mirror.spec",
+  "requires 0 < len <= 2^62-1, isize::MIN < offset < isize::MAX; ensures result < len, terminates (decreases measure), no overflow")
